@@ -5,6 +5,7 @@
 package main
 
 import (
+	"database/sql"
 	"net/url"
 	"strings"
 	"testing"
@@ -19,6 +20,9 @@ type vPwWorld struct {
 	dir    map[string]string
 	srv    []*vFakeLDAP
 	hashPw map[string]string // argon2 hash string -> password it was made from (cache for the projection)
+	prim   *vGate
+	rawP   *sql.DB // the harness's own handles on the two sqlite files (projection, time travel, tampering)
+	rawC   *sql.DB
 }
 
 var vPwUsers = []string{"alice", "bob"}
@@ -27,6 +31,14 @@ var vPwAll = []string{"p1", "p2", "p3"}
 func newPwWorld() *vPwWorld {
 	w := newWorld(vWorldOpts{CertCfg: []string{"password"}, WebUICfg: []string{"password"}})
 	g := &vPwWorld{w: w, dir: map[string]string{"alice": "p1", "bob": "p1"}, hashPw: map[string]string{}}
+	var cg *vGate
+	g.prim, cg = w.regate()
+	var err0 error
+	g.rawP, err0 = sql.Open("sqlite3", g.prim.name)
+	vMust(err0)
+	g.rawC, err0 = sql.Open("sqlite3", cg.name)
+	vMust(err0)
+	w.cleanup = append(w.cleanup, func() { g.rawP.Close(); g.rawC.Close() })
 	_, pool := vLDAPTLSConfig()
 	var urls []string
 	for i := 0; i < 2; i++ {
@@ -41,11 +53,13 @@ func newPwWorld() *vPwWorld {
 	return g
 }
 
-func (g *vPwWorld) rowOf(u string) map[string]interface{} {
+func (g *vPwWorld) rowOf(u string) map[string]interface{} { return g.rowIn(g.rawP, u) }
+
+func (g *vPwWorld) rowIn(db *sql.DB, u string) map[string]interface{} {
 	out := map[string]interface{}{"present": false, "pw": "none", "expired": false, "intact": true}
 	var jws string
 	var exp int64
-	err := g.w.st.db.QueryRow("select jws_data, expiration_epoch from expiring_signed_user_data where username = ? and type = 1", u).Scan(&jws, &exp)
+	err := db.QueryRow("select jws_data, expiration_epoch from expiring_signed_user_data where username = ? and type = 1", u).Scan(&jws, &exp)
 	if err != nil {
 		return out
 	}
@@ -103,7 +117,11 @@ func (g *vPwWorld) project() map[string]interface{} {
 	for _, u := range vPwUsers {
 		rows[u] = g.rowOf(u)
 	}
-	return map[string]interface{}{"row": rows}
+	mir := map[string]interface{}{}
+	for _, u := range vPwUsers {
+		mir[u] = g.rowIn(g.rawC, u)
+	}
+	return map[string]interface{}{"row": rows, "mirror": mir}
 }
 
 func (g *vPwWorld) step(a map[string]interface{}) map[string]interface{} {
@@ -116,6 +134,21 @@ func (g *vPwWorld) step(a map[string]interface{}) map[string]interface{} {
 		out["accepted"] = r.Status == 200 && r.Cookie(authCookieName) != nil
 		out["panic"] = r.Panic != ""
 		out["status"] = r.Status
+	case "sync":
+		if err := copyDBIntoSQLite(st.db, st.cacheDB, "sqlite"); err != nil {
+			out["status"] = -1
+		}
+	case "dboutage":
+		g.prim.mu.Lock()
+		g.prim.delayQ = 250 * time.Millisecond
+		g.prim.mu.Unlock()
+		st.remoteDBQueryTimeout = 40 * time.Millisecond
+	case "dbrecover":
+		time.Sleep(300 * time.Millisecond)
+		g.prim.mu.Lock()
+		g.prim.delayQ = 0
+		g.prim.mu.Unlock()
+		st.remoteDBQueryTimeout = 2 * time.Second
 	case "change":
 		for _, f := range g.srv {
 			f.mu.Lock()
@@ -126,41 +159,42 @@ func (g *vPwWorld) step(a map[string]interface{}) map[string]interface{} {
 		}
 	case "server":
 		g.srv[vInt(a, "idx")-1].setMode(vStr(a, "state"))
-	case "expire":
-		var jws string
-		if st.db.QueryRow("select jws_data from expiring_signed_user_data where username = ? and type = 1", u).Scan(&jws) == nil {
-			past := time.Now().Unix() - 10
-			_, verr := st.getStorageDataFromStorageStringDataJWT(jws)
-			if verr == nil || strings.Contains(verr.Error(), "invalid JWT values") {
-				cl := vPayload(jws)
-				cl["exp"], cl["iat"], cl["nbf"] = past, past-96*3600, past-96*3600
-				jws = vResign("ours", cl)
+	case "expire", "halflife":
+		// time passes for this user's record in BOTH stores (96 h / 48 h): every signed instant moves that far into the past
+		full := vStr(a, "op") == "expire"
+		for _, db := range []*sql.DB{g.rawP, g.rawC} {
+			var jws string
+			var exp int64
+			if db.QueryRow("select jws_data, expiration_epoch from expiring_signed_user_data where username = ? and type = 1", u).Scan(&jws, &exp) != nil {
+				continue
 			}
-			st.db.Exec("update expiring_signed_user_data set jws_data = ?, expiration_epoch = ? where username = ? and type = 1", jws, past, u)
-		}
-	case "halflife":
-		// 48 hours pass for this user's record: every signed instant moves that far into the past
-		var jws string
-		var exp int64
-		if st.db.QueryRow("select jws_data, expiration_epoch from expiring_signed_user_data where username = ? and type = 1", u).Scan(&jws, &exp) == nil {
 			const d = 48*3600 + 5
+			past := time.Now().Unix() - 10
+			newExp := exp - d
+			if full {
+				newExp = past
+			}
 			// only a record that carries keymaster's own signature is re-signed with moved instants; a tampered one
 			// stays byte for byte what the attacker wrote (time travel must not legitimise it)
 			_, verr := st.getStorageDataFromStorageStringDataJWT(jws)
 			if verr == nil || strings.Contains(verr.Error(), "invalid JWT values") {
 				cl := vPayload(jws)
-				for _, k := range []string{"exp", "iat", "nbf"} {
-					if v, ok := cl[k].(int64); ok {
-						cl[k] = v - d
+				if full {
+					cl["exp"], cl["iat"], cl["nbf"] = past, past-96*3600, past-96*3600
+				} else {
+					for _, k := range []string{"exp", "iat", "nbf"} {
+						if v, ok := cl[k].(int64); ok {
+							cl[k] = v - d
+						}
 					}
 				}
 				jws = vResign("ours", cl)
 			}
-			st.db.Exec("update expiring_signed_user_data set jws_data = ?, expiration_epoch = ? where username = ? and type = 1", jws, exp-d, u)
+			db.Exec("update expiring_signed_user_data set jws_data = ?, expiration_epoch = ? where username = ? and type = 1", jws, newExp, u)
 		}
 	case "tamper":
 		var jws string
-		if st.db.QueryRow("select jws_data from expiring_signed_user_data where username = ? and type = 1", u).Scan(&jws) != nil {
+		if g.rawP.QueryRow("select jws_data from expiring_signed_user_data where username = ? and type = 1", u).Scan(&jws) != nil {
 			break
 		}
 		cl := vPayload(jws)
@@ -171,17 +205,17 @@ func (g *vPwWorld) step(a map[string]interface{}) map[string]interface{} {
 				other = "alice"
 			}
 			cl["sub"] = other // a record keymaster genuinely signed - for the other user
-			st.db.Exec("update expiring_signed_user_data set jws_data = ? where username = ? and type = 1", vResign("ours", cl), u)
+			g.rawP.Exec("update expiring_signed_user_data set jws_data = ? where username = ? and type = 1", vResign("ours", cl), u)
 		case "alterhash":
 			h, _ := authutil.Argon2MakeNewHash([]byte("p3"))
 			cl["data"] = h
 			forged := vResign("otherrsa", cl)
 			pj, pf := strings.Split(jws, "."), strings.Split(forged, ".")
-			st.db.Exec("update expiring_signed_user_data set jws_data = ? where username = ? and type = 1", pj[0]+"."+pf[1]+"."+pj[2], u)
+			g.rawP.Exec("update expiring_signed_user_data set jws_data = ? where username = ? and type = 1", pj[0]+"."+pf[1]+"."+pj[2], u)
 		case "extendcolumn":
-			st.db.Exec("update expiring_signed_user_data set expiration_epoch = ? where username = ? and type = 1", time.Now().Unix()+90*24*3600, u)
+			g.rawP.Exec("update expiring_signed_user_data set expiration_epoch = ? where username = ? and type = 1", time.Now().Unix()+90*24*3600, u)
 		case "resign":
-			st.db.Exec("update expiring_signed_user_data set jws_data = ? where username = ? and type = 1", vResign("otherrsa", cl), u)
+			g.rawP.Exec("update expiring_signed_user_data set jws_data = ? where username = ? and type = 1", vResign("otherrsa", cl), u)
 		}
 	}
 	return out
